@@ -411,3 +411,86 @@ def thorough_line_rule(ctx, I: Interp, rule: str) -> int:
         ctx.check(outs == [("instruction", expect)], rule, f"LineParser.parse[{label}]", f"{tpl.render()!r} gives {outs}"[:240],
                   f"the line yields exactly one instruction whose record is {expect}")
     return n
+
+
+# ------------------------------------------------------------------ whole listings (file order; sections and labels do not matter)
+def listing_templates() -> List[Tuple[str, Str, List[str]]]:
+    """(label, listing text template, expected records in file order). Every line has its own tokens, so order is visible.
+    Section names and symbol names repeat: a listing may name a section twice (COMDAT groups, `ld -r`) and two labels may
+    carry the same name (static functions); neither is part of the instruction sequence."""
+    def parts(i):
+        return (H(f"A{i}", "hex"), H(f"M{i}", "mn"), H(f"R{i}", "mn"), H(f"Q{i}", "mn"), H(f"K{i}", "num"), H(f"T{i}", "hex"))
+    SY, OT = H("SYM", "symn"), H("OTHER", "symn")
+    L = []
+
+    def line(*p):
+        L.append(list(p))
+    a1, m1, r1, q1, _, _ = parts(1)
+    a2, m2, *_ = parts(2)
+    a3, m3, r3, q3, k3, t3 = parts(3)
+    a4, _, _, _, _, t4 = parts(4)
+    a5, m5, *_ = parts(5)
+    a6 = H("A6", "hex")
+    line("")
+    line("a.out:     file format elf64-x86-64")
+    line("")
+    line("")
+    line("Disassembly of section .text:")
+    line("")
+    line("0000000000", H("S1", "hex"), " <", SY, ">:")
+    line("  ", a1, ":\t", BYTES[1], "\t", m1, "    %", r1, ",%", q1)
+    line("  ", a2, ":\t", BYTES[0], "\t", m2)
+    line("\t...")
+    line("0000000000", H("S2", "hex"), " <", SY, ">:")
+    line("  ", a3, ":\t", BYTES[2], "\t", m3, "    ", k3, "(%", q3, "),%", r3, "        # ", t3, " <", SY, ">")
+    line("  ", a6, ":\t00 00 00 ")
+    line("")
+    line("Disassembly of section .plt:")
+    line("")
+    line("0000000000", H("S3", "hex"), " <", OT, ">:")
+    line("  ", a4, ":\t", BYTES[3], "\tcall   ", t4, " <", SY, ">")
+    line("")
+    line("Disassembly of section .text:")
+    line("")
+    line("0000000000", H("S4", "hex"), " <", SY, ">:")
+    line("  ", a5, ":\t", BYTES[0], "\t", m5)
+    line("")
+    flat: List[Any] = []
+    for i, p in enumerate(L):
+        if i:
+            flat.append("\n")
+        flat.extend(p)
+    expect = ["<A1>::<M1>,%<R1>,%<Q1>", "<A2>::<M2>,", "<A3>::<M3>,[%<Q3>+<K3>],%<R3>", "<A6>::empty,", "<A4>::call,<T4>", "<A5>::<M5>,"]
+    return [("two sections of one name, two labels of one name, comment, elision, byte continuation", T(*flat), expect)]
+
+
+def listing_order_rule(ctx, I: Interp, rule: str) -> int:
+    """ObjdumpParserManual.parse on whole listing templates: the consumer receives exactly the instruction lines' records,
+    once each, in file order (the byte-continuation pseudo instruction included: the consumer's first observer removes it)"""
+    from .values import Unknown
+    opm = I.p.find_class("ObjdumpParserManual")
+    if opm is None or opm.find_method("parse") is None:
+        raise AnalysisError("anchor ObjdumpParserManual.parse not found")
+    n = 0
+    for label, text, expect in listing_templates():
+        def thunk(I, text=text):
+            o = I.construct(opm, [], {}, None, None)
+            cons = Unknown("CONSUMER", {"truthy": True, "not_none": True})
+            return I.call_func(opm.find_method("parse"), [text, cons], {}, o, None, None)
+        for p in I.explore(thunk):
+            n += 1
+            if p.kind != "return":
+                ctx.fail(rule, f"ObjdumpParserManual.parse[{label}]", f"raises {p.exc.type_name}", "parsing a well-formed listing raises")
+                continue
+            got = []
+            for e in p.events:
+                if e.kind == "call_unknown" and e.target.endswith("consume_instruction") and e.args:
+                    v = e.args[0]
+                    if isinstance(v, Obj) and v.cls.find_method("stringify") is not None:
+                        st = I.call_func(v.cls.find_method("stringify"), [], {}, v, None, None)
+                        got.append(st.render() if isinstance(st, Str) else repr(st))
+                    else:
+                        got.append(repr(v)[:60])
+            ctx.check(got == expect, rule, f"ObjdumpParserManual.parse[{label}]", f"forwarded {got}"[:300],
+                      "the instruction lines reach the consumer once each, in file order; sections, labels, comments do not matter")
+    return n
